@@ -146,6 +146,7 @@ def chk_case(inp, c):
     if est is None:
         est = c.call(gen.make_estimator, dreye, inp, w=(1.0 if inp["W"] is None else inp["W"]),
                      _where="ReceptorEstimator+register_system")
+    del c.events[:]          # only the events of the judged call
     bs = inp.get("bs", 1)
     c.cell("batch=" + ("1" if bs == 1 else "many"))
     out = c.call(est.fit, B.copy(), model=model, batch_size=bs, _where=f"ReceptorEstimator.fit(model={model})")
